@@ -158,7 +158,7 @@ for _st in (True, False):
     for _state in ('fresh', 'loaded_padded', 'loaded_masked'):
         for _wp in (False, True):
             _cls = type('ReadVariantHeaders', (ReadVariantHeaders,), dict(structured=_st, state=_state, want_padding=_wp))
-            register(_cls, 'read.py::SgzReader.read_variant_headers', ['C15', 'C08' if not _st else 'C04'], [CFG_DEFAULT[3]], modes=('file',),
+            register(_cls, 'read.py::SgzReader.read_variant_headers', ['C15'] + (['C08'] if not _st else ['C04', 'C06']), [CFG_DEFAULT[3]], modes=('file',),
                      tag=f'{"regular" if _st else "irregular"},{_state},include_padding={_wp}')
 
 
